@@ -673,12 +673,37 @@ theorem drop_length_takeWhile {α} (p : α → Bool) (l : List α) : l.drop (l.t
     simp only [List.takeWhile, List.dropWhile]
     cases p a <;> simp [ih]
 
+theorem dropWhile_length_le {α} (p : α → Bool) (l : List α) : (l.dropWhile p).length ≤ l.length :=
+  (List.dropWhile_sublist p).length_le
+
+theorem trimWs_length_le (l : List Char) : (trimWs l).length ≤ l.length := by
+  unfold trimWs
+  have h1 := dropWhile_length_le isWs l
+  have h2 := dropWhile_length_le isWs (l.dropWhile isWs).reverse
+  simp only [List.length_reverse] at *
+  omega
+
+theorem render_length (h seg : List Char) : (render seg h).length ≤ seg.length + h.length := by
+  induction h generalizing seg with
+  | nil => simpa [render] using trimWs_length_le seg
+  | cons c r ih =>
+    simp only [render]
+    split
+    · have := ih []
+      have := trimWs_length_le seg
+      simp only [List.length_append, List.length_cons, List.length_nil] at *
+      omega
+    · have := ih (seg ++ [c])
+      simp only [List.length_append, List.length_cons, List.length_nil] at *
+      omega
+
 /-- what the rest of the proof needs to know about the media type `parse.DataURI` returns (before its
     `text/plain` default) for a header `head` -/
 structure HeadFacts (head x : List Char) : Prop where
   strip : S.stripWs x = S.stripWs (S.splitMarker head).1
   comma : ',' ∉ x
   good : goodTail x
+  len : x.length ≤ (S.splitMarker head).1.length
   first : ∃ tl, x = trimWs (head.takeWhile notDelimB) ++ tl ∧
     (tl = [] ∨ ∃ d tl', tl = d :: tl' ∧ (head.drop (head.takeWhile notDelimB).length).head? = some d)
 
@@ -702,10 +727,11 @@ theorem parse_structure (u head p : List Char) (hs : S.splitURL u = some (head, 
   simp only [hlen, htake, and_self, if_true, hdrop, hscan]
   rcases marker_cases head hall with ⟨hnb, hm⟩ | ⟨a, s, he, hn, hb, hm⟩
   · -- not base64
-    refine ⟨render [] head, ⟨?_, ?_, ?_, ?_⟩, ?_⟩
+    refine ⟨render [] head, ⟨?_, ?_, ?_, ?_, ?_⟩, ?_⟩
     · rw [hm, stripWs_render]; simp [S.stripWs]
     · exact comma_render _ _ (by simp) hcomma
     · exact (render_good ',' head none [] (by simp) hall (fun e => absurd e (by simpa using hnb))).1
+    · rw [hm]; simpa using render_length head []
     · have hrf := render_first head []
       simp only [List.nil_append] at hrf
       refine ⟨_, hrf, ?_⟩
@@ -726,7 +752,7 @@ theorem parse_structure (u head p : List Char) (hs : S.splitURL u = some (head, 
       rw [he, itemsE_append, List.all_append, Bool.and_eq_true] at hall
       exact hall.1
     have hcomma_a : ',' ∉ a := fun hm' => hcomma (by rw [he]; simp [hm'])
-    refine ⟨render [] a, ⟨?_, ?_, ?_, ?_⟩, ?_⟩
+    refine ⟨render [] a, ⟨?_, ?_, ?_, ?_, ?_⟩, ?_⟩
     · rw [hm, stripWs_render]; simp [S.stripWs]
     · exact comma_render _ _ (by simp) hcomma_a
     · refine (render_good ';' a none [] (by simp) hall_a ?_).1
@@ -734,6 +760,7 @@ theorem parse_structure (u head p : List Char) (hs : S.splitURL u = some (head, 
       have hmem := lastItem_mem ';' a none []
       have hok := (List.all_eq_true.1 hall_a) _ hmem
       exact absurd e (itemOK_semi hok)
+    · rw [hm]; simpa using render_length a []
     · have ht : head.takeWhile notDelimB = a.takeWhile notDelimB := by
         rw [he]; exact takeWhile_append_stop' _ _ _ _ (by decide)
       have hd : head.dropWhile notDelimB = a.dropWhile notDelimB ++ ';' :: s := by
